@@ -179,7 +179,7 @@ def check_trigonal(c):
     if r:
         return "H -> R: " + r
     c.choose_trigonal_lattice("H")
-    if not np.allclose(c.unit_cell.direct, cell0, atol=1e-9) or not np.allclose(c.asymmetric_unit.positions, pos0, atol=1e-9):
+    if not np.allclose(c.unit_cell.direct, cell0, rtol=0, atol=1e-9) or not np.allclose(c.asymmetric_unit.positions, pos0, rtol=0, atol=1e-9):
         return "H -> R -> H does not restore the original cell and coordinates"
     if c.space_group.choice != "H" or len(c.unit_cell_atoms()["element"]) != n0:
         return "H -> R -> H does not restore the setting / unit cell contents"
@@ -212,7 +212,7 @@ def correspond(ctx):
     for (line, impl, inp), m in zip(cases, outs):
         try:
             mv = np.array([float(F(t)) for t in m.split()]).reshape(3, 3)
-            ok = np.allclose(mv, impl, atol=1e-9)
+            ok = np.allclose(mv, impl, rtol=0, atol=1e-9)
         except Exception:  # noqa
             ok, mv = False, m
         if not ok:
